@@ -237,6 +237,43 @@ theorem fieldText_wideMsg (env : Env) (a : Pad.Align) (w : Option Nat) (hc : env
   have : wideMsgKey ≠ wideBarKey := by decide
   simp [this]
 
+/-! ## one wide bar on a line -/
+
+theorem expandWide_bar (env : Env) (L R : List G) (hL : NoNul L) (hR : NoNul R) :
+    expandWide env .bar (L ++ [nul] ++ R) = L ++ env.bar (env.W - cols (L ++ R)) ++ R := by
+  have hf : (L ++ [nul] ++ R).filter (fun g => !isNul g) = L ++ R := by
+    rw [List.filter_append, List.filter_append, filter_noNul L hL, filter_noNul R hR]
+    simp [isNul, nul]
+  unfold expandWide
+  simp only [hf]
+  rw [replaceNul_append, replaceNul_append, replaceNul_noNul L _ hL, replaceNul_noNul R _ hR, replaceNul_nul]
+
+theorem fieldText_wideBar (env : Env) (a : Pad.Align) (w : Option Nat) (hc : env.custom wideBarKey = none) :
+    fieldText env wideBarKey a w = ([nul], some .bar) := by
+  unfold fieldText
+  rw [hc]
+  simp
+
+/-- **a line with one wide bar**: the parts before and after it expand as they would alone, and the bar is
+`format_bar` at the columns they leave -/
+theorem formatState_wide_bar_line (env : Env) (l r : List Part) (al : Template.Align) (t : Bool) (s sa : Option (List Char))
+    (hc : env.custom wideBarKey = none)
+    (hl : ∀ p ∈ l, PlainPart env p) (hr : ∀ p ∈ r, PlainPart env p)
+    (hL : NoNul (l.flatMap (expansion env))) (hR : NoNul (r.flatMap (expansion env)))
+    (hLn : NoNl (l.flatMap (expansion env))) (hRn : NoNl (r.flatMap (expansion env)))
+    (hb : ∀ n, NoNl (env.bar n)) :
+    formatState env (l ++ [.ph wideBarKey al none t s sa] ++ r) =
+      [l.flatMap (expansion env) ++ env.bar (env.W - cols (l.flatMap (expansion env) ++ r.flatMap (expansion env))) ++ r.flatMap (expansion env)] := by
+  rw [formatState_eq, List.foldl_append, List.foldl_append, foldl_plain env l _ hl]
+  have hstep : stepPart env { ({} : Acc) with cur := ([] : List G) ++ l.flatMap (expansion env) } (.ph wideBarKey al none t s sa)
+      = { cur := l.flatMap (expansion env) ++ [nul], wide := some .bar, lines := [] } := by
+    simp [stepPart, fieldText_wideBar env (toPad al) none hc]
+  rw [List.foldl_cons, List.foldl_nil, hstep, foldl_plain env r _ hr]
+  have hne : l.flatMap (expansion env) ++ [nul] ++ r.flatMap (expansion env) ≠ [] := by simp
+  simp only [finish, ne_eq, hne, not_false_eq_true, if_true, pushLine, List.nil_append]
+  rw [expandWide_bar env _ _ hL hR]
+  rw [splitNl_noNl _ (noNl_append (noNl_append hLn (hb _)) hRn)]
+
 /-! ## what a padded field is made of -/
 
 theorem byteSlice_go_mem (start stop : Nat) : ∀ (rest : List G) (off : Nat) (acc r : List G),
